@@ -72,6 +72,16 @@ def generate(seed, length=None):
     for _ in range(length or rng.randint(15, 45)):
         if rng.random() < 0.06:
             steps.append(("at", "ExcludeRegion", rng.choice(["disable", "enable", "x"]), False))
+        elif rng.random() < 0.08:
+            # degenerate arcs relative to a known start point: end on the ray centre -> start,
+            # end at the centre, end = start (full circle), zero radius, radius shorter than the
+            # half chord
+            steps.append(("g", "G1 X10 Y10", {}))
+            steps.append(("g", rng.choice([
+                "G3 X8 Y10 I1 J0", "G2 X8 Y10 I1 J0", "G2 X11 Y10 I1 J0", "G3 X11 Y10 I1 J0",
+                "G2 X10 Y10 I1 J0", "G3 I0 J2", "G2 X10 Y10 R5", "G2 X20 Y10 R1", "G3 X20 Y10 R-5",
+                "G2 X20 Y10 R5 I1 J1", "G3 X10.0 Y10.0 I0 J0", "G2 X10 Y12 I0 J1", "G2 R0 X5",
+                "G3 X9 Y10 I0.5 J0", "G2 I1e5 J0", "G2 X10 Y10 I-0.0 J0.0"]), {}))
         elif rng.random() < 0.25:
             steps.append(("g", rng.choice(["G1 X35 Y35", "G1 X10 Y10 E1", "G1 X35 Y35 E-1",
                                            "G1 E-2", "G1 E2", "G10", "G11", "G1 Z1"]), {}))
